@@ -16,9 +16,91 @@ from .c05 import build, close, curve_tokens, gen_curve, val
 
 USES_TRANSLATOR = True
 ANCHOR_PREFIX = ("sn_", "gh_")
-RULE = ("seeded S-N curves x random histograms (1-40 bins) x scf in [1,3] x thickness; Weibull (q,h) x curves for the closed form; "
-        "random cycle tables for Goodman-Haigh; non-trivial = bilinear curve or scf>1 or thickness above reference; "
-        "distinct by full input")
+RULE = ("seeded S-N curves x random histograms (1-40 bins) x scf in [1,3] x thickness (none / below / at / above reference) x every "
+        "documented form of the `sn` argument (dict, SNCurve, bound method, lambda, callable object, plain object exposing n(); "
+        "thickness passed through th / args / kwds); Weibull (q,h) x curves x thickness below/at/above reference for the closed "
+        "form (curve as object and as dict, repeated calls); random cycle tables for Goodman-Haigh; corpus cases first; "
+        "non-trivial = bilinear curve or scf>1 or thickness above reference; distinct by full input")
+
+
+class _CapObj(object):
+    """user-defined capacity model: NOT an SNCurve, NOT callable, exposes n() (third documented form of `sn`)"""
+    def __init__(self, sn):
+        self._sn = sn
+
+    def n(self, s, t=None):
+        return self._sn.n(s, t=t)
+
+
+class _CapCall(object):
+    """user-defined capacity model given as a callable object"""
+    def __init__(self, sn):
+        self._sn = sn
+
+    def __call__(self, s, t=None):
+        return self._sn.n(s, t=t)
+
+
+FORMS = ("dict", "SNCurve", "bound method", "lambda", "callable object", "object with n()")
+
+
+def sn_forms(sn, kw, th, via):
+    """every documented way of handing the same curve to minersum: (label, sn argument, extra keyword arguments).
+    dict / SNCurve take the thickness as `th`; the other forms take it through `args` or `kwds` (as documented)."""
+    thx = {} if th is None else (dict(args=(th,)) if via == "args" else dict(kwds=dict(t=th)))
+    return [("dict", dict(kw), dict(th=th)),
+            ("SNCurve", sn, dict(th=th)),
+            ("bound method", sn.n, thx),
+            ("lambda", (lambda s, t=None: sn.n(s, t=t)), thx),
+            ("callable object", _CapCall(sn), thx),
+            ("object with n()", _CapObj(sn), thx)]
+
+
+def weibull_clauses(minersum_weibull, sn, kw, q, h, v0, td, tdv, scf, th, d):
+    """closed-form clauses that need no discretisation: curve as dict or object, repeated call on the same curve object,
+    scf == scaling the stress ranges (i.e. the Weibull scale), linear in cycle rate and duration."""
+    bad = []
+    try:
+        d_dict = float(minersum_weibull(q, h, dict(kw), v0, td=td, scf=scf, th=th))
+        d_again = float(minersum_weibull(q, h, sn, v0, td=td, scf=scf, th=th))
+        d_scaled = float(minersum_weibull(q * scf, h, sn, v0, td=td, scf=1.0, th=th))
+        d_lin = float(minersum_weibull(q, h, sn, 3.0 * v0, td=2.0 * tdv, scf=scf, th=th))
+    except Exception as e:      # noqa
+        return [("minersum_weibull must not raise for valid input", "damage", "raised %s: %s" % (type(e).__name__, e))]
+    if not close(d_dict, d, 1e-12):
+        bad.append(("closed form: curve given as parameters (dict) or object gives identical damage", d, d_dict))
+    if not close(d_again, d, 1e-12):
+        bad.append(("closed form: same damage on every call with the same curve object", d, d_again))
+    if not close(d_scaled, d, 1e-10):
+        bad.append(("closed form: scf equivalent to scaling the stress ranges (Weibull scale q*scf)", d_scaled, d))
+    if not close(d_lin, 6.0 * d, 1e-11):
+        bad.append(("closed form: linear in cycle rate and duration", 6.0 * d, d_lin))
+    return bad
+
+
+def check_forms(minersum, sn, kw, sr, cnt, td, scf, th, via, d):
+    """clauses 'identical whether the curve is given as parameters, object or function' and 'scf equivalent to scaling the
+    stress ranges', for every form. Returns list of (oracle text, form, expected, observed)."""
+    bad = []
+    scaled = [x * scf for x in sr]
+    for label, arg, extra in sn_forms(sn, kw, th, via):
+        try:
+            d_f = float(minersum(sr, cnt, arg, td=td, scf=scf, **extra))
+            d_s = float(minersum(scaled, cnt, arg, td=td, scf=1.0, **extra))
+            tot, bins = minersum(sr, cnt, arg, td=td, scf=scf, retbins=True, **extra)
+            d_b = float(sum(float(b) for b in bins)) if len(sr) else 0.0
+            tot = float(tot)
+        except Exception as e:      # noqa
+            bad.append(("curve given as parameters, object or function gives identical damage (no form may be refused)", label, d,
+                        "raised %s: %s" % (type(e).__name__, e)))
+            continue
+        if not close(d_f, d, 1e-12):
+            bad.append(("curve given as parameters, object or function gives identical damage", label, d, d_f))
+        if not close(d_s, d_f, 1e-11):
+            bad.append(("scf equivalent to scaling the stress ranges, for every form of the curve argument", label, d_s, d_f))
+        if not (close(tot, d, 1e-12) and close(d_b, d, 1e-11) and len(bins) == len(sr)):
+            bad.append(("damage per bin (retbins) sums to the total, for every form of the curve argument", label, d, [tot, d_b]))
+    return bad
 
 
 def run(chk):
@@ -34,19 +116,28 @@ def run(chk):
     pub = lambda c: {k: v for k, v in c.items() if not k.startswith("_")}
     N = 150 if chk.quick else 2000
     lines, meta = [], []
-    for _ in range(N):
-        c = gen_curve(rng)
-        sn, kw = build(c)
-        nb = rng.choice([1, 2, 3, 5, 8, 20, 40])
-        sr = [10 ** rng.uniform(0, 2.7) for _ in range(nb)]
-        cnt = [float(rng.choice([0.5, 1.0, 2.0, rng.randint(1, 10 ** 6)])) for _ in range(nb)]
-        td = rng.choice([1.0, 1.0, 3600.0, 1 / 3600.0])
-        scf = rng.choice([1.0, 1.0, 1.15, 2.0, round(rng.uniform(1, 3), 3)])
-        th = None
-        if c["t_ref"] is not None and rng.random() < 0.7:
-            th = rng.choice([c["t_ref"], 0.5 * c["t_ref"], 2 * c["t_ref"], 100.0])
-        elif c["t_ref"] is None and rng.random() < 0.1:
-            th = 30.0   # must be refused
+    corpus = core.load_corpus("C06")
+    fixed = [c for c in corpus if c.get("kind") == "minersum"]
+    for i in range(len(fixed) + N):
+        if i < len(fixed):
+            f = fixed[i]
+            c = dict(f["curve"])
+            sn, kw = build(c)
+            sr, cnt, td, scf, th = [float(x) for x in f["srange"]], [float(x) for x in f["count"]], f["td"], f["scf"], f["th"]
+            chk.count("corpus")
+        else:
+            c = gen_curve(rng)
+            sn, kw = build(c)
+            nb = rng.choice([1, 2, 3, 5, 8, 20, 40])
+            sr = [10 ** rng.uniform(0, 2.7) for _ in range(nb)]
+            cnt = [float(rng.choice([0.5, 1.0, 2.0, rng.randint(1, 10 ** 6)])) for _ in range(nb)]
+            td = rng.choice([1.0, 1.0, 3600.0, 1 / 3600.0])
+            scf = rng.choice([1.0, 1.0, 1.15, 2.0, round(rng.uniform(1, 3), 3)])
+            th = None
+            if c["t_ref"] is not None and rng.random() < 0.7:
+                th = rng.choice([c["t_ref"], 0.5 * c["t_ref"], 2 * c["t_ref"], 100.0])
+            elif c["t_ref"] is None and rng.random() < 0.1:
+                th = 30.0   # must be refused
         hist = " ".join(fbits(a) + " " + fbits(b) for a, b in zip(sr, cnt))
         lines.append("sn.minersum %s %s %s %s %s" % (curve_tokens(c, sn), fbits(td), fbits(scf), "-" if th is None else fbits(th), hist))
         meta.append((c, sn, kw, sr, cnt, td, scf, th))
@@ -76,6 +167,12 @@ def run(chk):
             d_call = float(minersum(sr, cnt, sn.n, td=td, scf=scf))
             if not close(d_call, d, 1e-12):
                 chk.fail("curve given as function gives identical damage", inp, d, d_call)
+        # every documented form of the curve argument (thickness through th / args / kwds), each with the scf clause
+        via = rng.choice(["args", "kwds"])
+        for text, label, e_, o_ in check_forms(minersum, sn, kw, sr, cnt, td, scf, th, via, d):
+            chk.fail(text, dict(inp, form=label, th_via=via), e_, o_)
+        chk.count("sn.minersum-forms", len(FORMS))
+        chk.dist("forms:scf%s:%s" % (">1" if scf > 1 else "=1", "th=None" if th is None else "th via " + via))
         dd, bins = minersum(sr, cnt, sn, td=td, scf=scf, th=th, retbins=True)
         exp_bins = [td * k / float(sn.n(s * scf, t=th)) for s, k in zip(sr, cnt)]
         if not all(close(float(a), b, 1e-12) for a, b in zip(bins, exp_bins)) or not close(float(sum(bins)), d, 1e-12):
@@ -101,15 +198,25 @@ def run(chk):
     # ---- closed form -----------------------------------------------------------------------------------------------
     M = 40 if chk.quick else 400
     glines, gmeta = [], []
-    for _ in range(M):
-        c = gen_curve(rng)
-        sn, kw = build(c)
-        q = 10 ** rng.uniform(0.3, 1.6)
-        h = rng.choice([0.8, 1.0, 1.2, round(rng.uniform(0.6, 2.0), 3)])
-        v0 = rng.choice([0.1, 0.125, 1.0])
-        td = rng.choice([None, 3600.0, 1.0])
-        scf = rng.choice([1.0, 1.25, 2.0])
-        th = rng.choice([None, 2 * c["t_ref"], c["t_ref"]]) if c["t_ref"] is not None else None
+    wfixed = [c for c in corpus if c.get("kind") == "weibull"]
+    for i in range(len(wfixed) + M):
+        if i < len(wfixed):
+            f = wfixed[i]
+            c = dict(f["curve"])
+            sn, kw = build(c)
+            q, h, v0, td, scf, th = f["q"], f["h"], f["v0"], f["td"], f["scf"], f["th"]
+            chk.count("corpus")
+        else:
+            c = gen_curve(rng)
+            sn, kw = build(c)
+            q = 10 ** rng.uniform(0.3, 1.6)
+            h = rng.choice([0.8, 1.0, 1.2, round(rng.uniform(0.6, 2.0), 3)])
+            v0 = rng.choice([0.1, 0.125, 1.0])
+            td = rng.choice([None, 3600.0, 1.0])
+            scf = rng.choice([1.0, 1.25, 2.0])
+            # thickness: none / above / at / below the reference (below: the correction is 1 by definition) / a fixed plate
+            th = rng.choice([None, 2 * c["t_ref"], c["t_ref"], 0.5 * c["t_ref"], round(rng.uniform(0.2, 1.0) * c["t_ref"], 2), 100.0]) \
+                if c["t_ref"] is not None else None
         try:
             d = float(minersum_weibull(q, h, sn, v0, td=td, scf=scf, th=th))
         except Exception as e:
@@ -126,17 +233,20 @@ def run(chk):
             g1 = gammaincc(a1_, x) * gamma(a1_)
             g2 = gammainc(a2_, x) * gamma(a2_)
             glines.append("gen.sn_mw_bilinear %s" % " ".join(fbits(v) for v in (float(sn.a1), float(sn.a2), g1, g2, c["m1"], c["m2"], qq, tdv, v0)))
-        gmeta.append((inp, c, sn, d, qq, h, v0, tdv, scf, th, q))
+        gmeta.append((inp, c, sn, d, qq, h, v0, tdv, scf, th, q, kw))
     gouts = drv.run(glines)
-    for (inp, c, sn, d, qq, h, v0, tdv, scf, th, q), o in zip(gmeta, gouts):
+    for (inp, c, sn, d, qq, h, v0, tdv, scf, th, q, kw), o in zip(gmeta, gouts):
         chk.count("sn.minersum_weibull")
         chk.nontriv(repr(inp))
-        chk.dist("closed-form:%s" % ("bilinear" if c["m2"] else "single"))
+        chk.dist("closed-form:%s:%s" % ("bilinear" if c["m2"] else "single", "th=None" if th is None or c["t_ref"] is None else
+                                        "th<ref" if th < c["t_ref"] else "th=ref" if th == c["t_ref"] else "th>ref"))
         if not close(val(o), d, 1e-9):
             chk.disagree("sn.minersum_weibull", inp, val(o), d)
         if isinstance(d, str):
             chk.fail("minersum_weibull must not raise for valid input", inp, "damage", d)
             continue
+        for text, e_, o_ in weibull_clauses(minersum_weibull, sn, kw, q, h, v0, inp["td"], tdv, scf, th, d):
+            chk.fail(text, inp, e_, o_)
         # measurement: histogram damage of a fine discretisation of the Weibull distribution (cdf differences as counts)
         smax = q * (-math.log(1e-14)) ** (1 / h)
         nb = 40000
@@ -220,6 +330,9 @@ def replay(rp):
         if not close(sc, d, 1e-11):
             print("FAILS: scf as scaling")
             bad += 1
+        for text, label, e_, o_ in check_forms(minersum, sn, kw, sr, cnt, inp["td"], inp["scf"], inp["th"], inp.get("th_via", "args"), d):
+            print("FAILS: %s [sn given as %s]: expected %r observed %r" % (text, label, e_, o_))
+            bad += 1
     elif "q" in inp:
         sn, kw = build(inp["curve"])
         d = float(minersum_weibull(inp["q"], inp["h"], sn, inp["v0"], td=inp["td"], scf=inp["scf"], th=inp["th"]))
@@ -230,6 +343,10 @@ def replay(rp):
         dh = float(minersum(0.5 * (edges[:-1] + edges[1:]), counts, sn, td=1.0, scf=inp["scf"], th=inp["th"]))
         print("closed form", d, "discretised", dh)
         if not close(dh, d, 2e-3):
+            print("FAILS: closed form == histogram damage of a fine discretisation")
+            bad += 1
+        for text, e_, o_ in weibull_clauses(minersum_weibull, sn, kw, q, h, inp["v0"], inp["td"], tdv, inp["scf"], inp["th"], d):
+            print("FAILS: %s: expected %r observed %r" % (text, e_, o_))
             bad += 1
     print("replay: %d failing clause(s)" % bad)
     return 1 if bad else 0
